@@ -46,7 +46,7 @@ def summaryOf : String → List (Nat × Cell)
 /-- every summary the translator inlined at a call site is the write-set Lean computes for the callee -/
 def callsOk (calls : List (String × List (Nat × Cell))) : Bool := calls.all fun c => sameSet c.2 (summaryOf c.1)
 
-theorem genfrm_translated : frm_translated = ["set_spec_attributes", "unique_indices", "scaled", "regrid_spec", "smooth_spec", "coords_swap", "coords_init", "sel_nearest", "sel_idw", "sel_bbox", "to_netcdf", "to_ww3", "to_funwave", "from_ww3", "from_ncswan", "sa_split", "sa_scale_by_hs", "sa_rotate", "sa_stats", "part_ptm4", "part_ptm5", "part_bbox"] := by decide
+theorem genfrm_translated : frm_translated = ["set_spec_attributes", "unique_indices", "scaled", "regrid_spec", "smooth_spec", "coords_swap", "coords_init", "sel_nearest", "sel_idw", "sel_bbox", "to_netcdf", "to_ww3", "to_funwave", "from_ww3", "from_ncswan", "sa_split", "sa_scale_by_hs", "sa_rotate", "sa_stats", "part_ptm4", "part_ptm5", "part_bbox", "from_wwm", "from_era5", "from_ndbc"] := by decide
 
 /-- `set_spec_attributes`: computed may-write set on the parameters' cells -/
 theorem genfrm_set_spec_attributes_writes : writes frm_set_spec_attributes_params prog_set_spec_attributes = [(0, .attrs), (0, .held)] := by decide +kernel
@@ -303,6 +303,39 @@ example : (0 : Var) ∈ frm_part_bbox_params ∧ ((0 : Var), Cell.encoding) ∉ 
 def toFrame : Cell → WS.Frame.Cell
   | .values => .values | .coords => .coords | .attrs => .attrs | .encoding => .encoding | .dims => .dimOrder
   | .name => .attrs | .held => .attrs
+
+/-- `from_wwm` (added in round 8): computed may-write set on the parameters' cells -/
+theorem genfrm_from_wwm_writes : writes frm_from_wwm_params prog_from_wwm = [] := by decide +kernel
+theorem genfrm_calls_from_wwm : callsOk frm_from_wwm_calls = true := by decide +kernel
+theorem genfrm_unknown_from_wwm : frm_from_wwm_unknown = ["MAPPING.items", "uv_to_spddir"] := by decide
+/-- frame: whatever statements of `from_wwm` execute, in whatever order, no cell of any argument changes -/
+theorem genfrm_from_wwm_frame (h : Loc → Nat) (tr : List Stmt) (hsub : ∀ s ∈ tr, s ∈ prog_from_wwm) (v : Var)
+    (hv : v ∈ frm_from_wwm_params) (c : Cell) : (exec tr (init frm_from_wwm_params h)).heap (Loc.param v c) = h (Loc.param v c) :=
+  frame_ir _ _ genfrm_from_wwm_writes h tr hsub v hv c
+example : ∀ s ∈ prog_from_wwm.take 1, s ∈ prog_from_wwm := fun _ hs => List.mem_of_mem_take hs
+example : (0 : Var) ∈ frm_from_wwm_params := by decide
+
+/-- `from_era5` (added in round 8): computed may-write set on the parameters' cells -/
+theorem genfrm_from_era5_writes : writes frm_from_era5_params prog_from_era5 = [] := by decide +kernel
+theorem genfrm_calls_from_era5 : callsOk frm_from_era5_calls = true := by decide +kernel
+theorem genfrm_unknown_from_era5 : frm_from_era5_unknown = [] := by decide
+/-- frame: whatever statements of `from_era5` execute, in whatever order, no cell of any argument changes -/
+theorem genfrm_from_era5_frame (h : Loc → Nat) (tr : List Stmt) (hsub : ∀ s ∈ tr, s ∈ prog_from_era5) (v : Var)
+    (hv : v ∈ frm_from_era5_params) (c : Cell) : (exec tr (init frm_from_era5_params h)).heap (Loc.param v c) = h (Loc.param v c) :=
+  frame_ir _ _ genfrm_from_era5_writes h tr hsub v hv c
+example : ∀ s ∈ prog_from_era5.take 1, s ∈ prog_from_era5 := fun _ hs => List.mem_of_mem_take hs
+example : (0 : Var) ∈ frm_from_era5_params := by decide
+
+/-- `from_ndbc` (added in round 8): computed may-write set on the parameters' cells -/
+theorem genfrm_from_ndbc_writes : writes frm_from_ndbc_params prog_from_ndbc = [] := by decide +kernel
+theorem genfrm_calls_from_ndbc : callsOk frm_from_ndbc_calls = true := by decide +kernel
+theorem genfrm_unknown_from_ndbc : frm_from_ndbc_unknown = ["_construct_spectra", "MAPPING.items"] := by decide
+/-- frame: whatever statements of `from_ndbc` execute, in whatever order, no cell of any argument changes -/
+theorem genfrm_from_ndbc_frame (h : Loc → Nat) (tr : List Stmt) (hsub : ∀ s ∈ tr, s ∈ prog_from_ndbc) (v : Var)
+    (hv : v ∈ frm_from_ndbc_params) (c : Cell) : (exec tr (init frm_from_ndbc_params h)).heap (Loc.param v c) = h (Loc.param v c) :=
+  frame_ir _ _ genfrm_from_ndbc_writes h tr hsub v hv c
+example : ∀ s ∈ prog_from_ndbc.take 1, s ∈ prog_from_ndbc := fun _ hs => List.mem_of_mem_take hs
+example : (0 : Var) ∈ frm_from_ndbc_params := by decide
 
 /-- the translated operations whose regenerated write-set is empty: (name in the declared table, parameters, program) -/
 def translatedOps : List (String × List Var × Prog) := [
